@@ -245,9 +245,9 @@ func main() {
 			"iteration order is unspecified: only the multiset of yielded entries is compared",
 			"method bodies compiled one at a time (MethodCheckConcurrencyLimit=1)",
 		},
-		QuickDeadline:    30 * time.Minute, // ~35 s on an idle 16-core machine; the host may be heavily shared
-		ThoroughDeadline: 150 * time.Minute,
-		CaseTimeout:      1800 * time.Second, // the largest search needs ~15 (thorough ~60) CPU-seconds; the machine may be heavily shared
+		QuickDeadline:    12 * time.Minute, // ~1 min on an idle 16-core machine; past the deadline the remaining cases are skipped (exhaustive:false)
+		ThoroughDeadline: 60 * time.Minute,
+		CaseTimeout:      10 * time.Minute,
 		Setup: func(c *engine.Ctx) {
 			elkrun.Init()
 			debug.SetGCPercent(400) // many short-lived objects per transition; 16 workers share the machine
